@@ -126,7 +126,7 @@ func (g *gen) Int() *N {
 		case 12, 13:
 			return nCond(g.Bool(), g.Int(), g.Int())
 		case 14:
-			return nUn("-", g.Int())
+			return nUn(g.r.Pick([]string{"-", "-", "+"}), g.Int())
 		case 15:
 			if !g.cfg.Objects {
 				continue
@@ -140,6 +140,11 @@ func (g *gen) Int() *N {
 			}
 			if g.cfg.Failing && g.r.Chance(1, 3) {
 				return nProp(nProp(nID("O"), "Next", false), "V", false)
+			}
+			if g.r.Chance(1, 4) && !g.cfg.MapRep {
+				// a member of the OTHER struct type that prints like Obj; arithmetic on it
+				// is strict in its kind (the member is read through an interface{})
+				return nBin("+", nProp(nID("Ob2"), "V", false), g.lit())
 			}
 			return nProp(nID("O"), "V", false)
 		case 16:
@@ -285,7 +290,9 @@ func (g *gen) nilableArg() *N {
 
 func (g *gen) intCall() *N {
 	for {
-		switch g.r.Intn(10) {
+		switch g.r.Intn(11) {
+		case 10:
+			return nCall("Nest", g.intLeaf()) // the callee runs another program on another VM meanwhile
 		case 8:
 			return nCall("An", g.nilableArg(), g.nilableArg())
 		case 9:
@@ -356,7 +363,26 @@ func (g *gen) vaCall() *N {
 	return nCall("Va", args...)
 }
 
+// dynFor returns a dynamic atom usable under an operation that is strict in its
+// operand's kind (nil if none is allowed here): in a map environment the Any
+// member has its value's static type, so only call results are dynamic there.
+func (g *gen) dynFor() *N {
+	if !g.cfg.Dyn || !g.cfg.Failing {
+		return nil
+	}
+	a := g.dynAtom()
+	if a == nil || (a.K != "call" && g.cfg.MapRep) {
+		return nil
+	}
+	return a
+}
+
 func (g *gen) lenArg() *N {
+	if g.r.Chance(1, 10) {
+		if a := g.dynFor(); a != nil {
+			return a // len of a dynamic value: fails unless it holds a collection or a string
+		}
+	}
 	switch g.r.Intn(4) {
 	case 0:
 		if g.cfg.Strings {
@@ -526,7 +552,22 @@ func (g *gen) Bool() *N {
 			if a == nil {
 				continue
 			}
-			switch g.r.Intn(5) {
+			switch g.r.Intn(8) {
+			case 5:
+				if g.cfg.Strings && g.cfg.Failing && (a.K == "call" || !g.cfg.MapRep) {
+					return nBin("matches", a, nStr(g.r.Pick(rePool))) // fails unless it holds a string
+				}
+				return nBin("==", a, g.Int())
+			case 6:
+				if g.cfg.Failing && (a.K == "call" || !g.cfg.MapRep) {
+					return nUn(g.r.Pick([]string{"not", "!"}), a) // fails unless it holds a bool
+				}
+				return nBin("!=", a, g.Int())
+			case 7:
+				if g.cfg.Objects && g.cfg.Failing && (a.K == "call" || !g.cfg.MapRep) {
+					return nBin("==", nProp(a, "V", false), g.Int()) // member of a dynamic value: fails unless it holds an object
+				}
+				return nBin("==", a, g.Int())
 			case 4:
 				// a dynamic value as the left operand of a connective: fails unless it holds a bool
 				if g.cfg.Failing && (a.K == "call" || !g.cfg.MapRep) {
@@ -649,6 +690,11 @@ func (g *gen) strLeaf() *N {
 }
 
 func (g *gen) optBound() *N {
+	if g.r.Chance(1, 12) && !g.cfg.AllocOnly {
+		if a := g.dynFor(); a != nil {
+			return a // a dynamic slice bound: fails unless it holds an int
+		}
+	}
 	switch g.r.Intn(4) {
 	case 0:
 		return nil
